@@ -109,6 +109,8 @@ type Monitors struct {
 	Injecting       bool                      // the harness itself is re-delivering a schedule request
 	// JobConfigs (uid) for which a start write was applied but reported as a timeout to the queue controller
 	timedOutStart map[string]bool
+	// submittedStartAfter: ns/name -> the startAfter of the user's last accepted create/update request
+	submittedStartAfter map[string]time.Time
 	// staleTombstone: JobConfig uid -> this process was told about the disappearance of a Job it had started
 	// (and counted) through a relist tombstone whose last known state is still the unstarted Job
 	staleTombstone map[string]bool
@@ -293,6 +295,14 @@ func (m *Monitors) timedOutSuffix(jcuid string) string {
 		return ":after-stale-tombstone"
 	}
 	return ""
+}
+
+// NoteStartAfter records the startAfter a user asked for when creating or editing a Job (accepted requests only).
+func (m *Monitors) NoteStartAfter(ns, name string, t time.Time) {
+	if m.submittedStartAfter == nil {
+		m.submittedStartAfter = map[string]time.Time{}
+	}
+	m.submittedStartAfter[ns+"/"+name] = t
 }
 
 // onTombstone is told about every object a relist found to have disappeared, with the cache's last copy of it.
@@ -1304,6 +1314,14 @@ func (m *Monitors) checkJobTransition(ev *Event, jr *jobRec, old, j *execution.J
 		m.Evals["C07"]++
 		if sp := j.Spec.StartPolicy; sp != nil && sp.StartAfter != nil && now.Before(sp.StartAfter.Time) {
 			m.fail("C07", "started-before-startAfter", "Job %s started at %v, before its startAfter %v", j.Name, now.Sub(Epoch), sp.StartAfter.Sub(Epoch))
+		} else if t, ok := m.submittedStartAfter[j.Namespace+"/"+j.Name]; ok && now.Before(t) {
+			// judged against what the user asked for, not only against what admission stored
+			m.fail("C07", "started-before-requested-startAfter", "Job %s started at %v, before the startAfter %v its creator (or last editor) asked for; the stored Job has startAfter %v", j.Name, now.Sub(Epoch), t.Sub(Epoch), func() interface{} {
+				if sp := j.Spec.StartPolicy; sp != nil && sp.StartAfter != nil {
+					return sp.StartAfter.Sub(Epoch)
+				}
+				return "unset"
+			}())
 		}
 		if jr.JCUID != "" && j.Spec.StartPolicy != nil {
 			pol := j.Spec.StartPolicy.ConcurrencyPolicy
